@@ -69,7 +69,14 @@ def make_host(cfg):
     SChild()
     ann_a = Any if (cfg["fallback"]) else int  # a list fallback must be admissible for the alias' own type
 
+    from spec_classes import spec_property
+
+    def px(self):
+        return getattr(self, "x", -1) * 2
+
     ns = {
+        # a cached value derived from the plain-path target: a write FORWARDED by a passthrough alias is a write of the target
+        "px": spec_property(px, cache=True, invalidated_by=["x"]),
         "__annotations__": {"x": int, "d": Dict[str, int], "child": SChild, "e": Dict[str, SChild], "a": ann_a},
         "x": 1,
         "d": {"k": 1, "k.k": 1},
@@ -218,6 +225,9 @@ def ops_for(cfg):
            ["write_target", 1], ["write_target", 2], ["delete_target"]]
     if cfg["transform"]:
         ops.append(["write_alias", 101])
+    if cfg["host"] == "plain":
+        # target values that are EQUAL to 1 but are not 1: whatever the alias shows is computed from the current target
+        ops += [["write_target", 1.0], ["write_target", True]]
     if cfg["fallback"]:
         ops.append(["read_alias_mutate"])
     if cfg["host"] == "plain" or cfg["fallback"]:
@@ -315,9 +325,18 @@ def build(cfg, hist):
     Host = make_host(cfg)
     obj = Host()
     ref = RefAlias(cfg)
+    impl_apply(obj, ["read_alias"], cfg)
     for op in hist:
         ref.apply(op)
         _, obj, _, _ = impl_apply(obj, op, cfg)
+        # a (silent) read of the alias after every step of the history: reads change nothing, so they never show up in
+        # the explored histories themselves - but an implementation that REMEMBERS what a read computed must not serve it later
+        impl_apply(obj, ["read_alias"], cfg)
+        if hasattr(type(obj), "px"):
+            try:
+                obj.px  # (fills the cache, like the read the check makes after every judged step)
+            except Exception:
+                pass
     return obj, ref
 
 
@@ -350,10 +369,29 @@ def step(cfg, hist, op, out):
         out.append(violation(PROP, dict(sig, kind="unexpected_raise", got=fam(got[1])),
                              {"raised": repr(got[1])[:200], "expected": repr(exp[1]), "model_before": repr(k0)}, case))
         return False, obj2, ref
-    elif got[1] != exp[1]:
+    elif got[1] != exp[1] or type(got[1]) is not type(exp[1]):
         out.append(violation(PROP, dict(sig, kind="wrong_value"),
                              {"expected": repr(exp[1]), "got": repr(got[1])[:80], "model_before": repr(k0)}, case))
         ok = False
+    # what the alias shows right after this step (on a copy of the model: the model's read has no effect)
+    if got[0] != "raise" and op[0] not in ("read_alias_mutate",):
+        ref_view = copy.deepcopy(ref).apply(["read_alias"])
+        view, _, _, _ = impl_apply(obj2, ["read_alias"], cfg)
+        bad_view = (ref_view[0] == "raise") != (view[0] == "raise") or (
+            ref_view[0] != "raise" and (view[1] != ref_view[1] or type(view[1]) is not type(ref_view[1])))
+        if bad_view:
+            out.append(violation(PROP, dict(sig, kind="wrong_view_after_step"),
+                                 {"expected": repr(ref_view[1])[:80], "got": repr(view[1])[:80], "model_before": repr(k0)}, case))
+            ok = False
+    if cfg["host"] == "spec" and cfg["path"] == "plain" and got[0] != "raise":
+        try:
+            d = obj2.px
+        except Exception as e:
+            d = "raised " + type(e).__name__
+        want_d = (ref.target if ref.target != MISSING_T else -1) * 2
+        if d != want_d:
+            out.append(violation(PROP, dict(sig, kind="value_derived_from_target_is_stale"), {"expected": want_d, "got": repr(d)[:60], "model_before": repr(k0)}, case))
+            ok = False
     # the target, observed through its own path, must be what the model says
     t = target_get(obj2, cfg["path"])
     if t != ref.target:
